@@ -68,6 +68,7 @@ use fuel_core_producer::{
         GasPriceProvider,
     },
     ports::{
+        BlockProducer as BlockProducerPort,
         DryRunner,
         Relayer as RelayerPort,
         RelayerBlockInfo,
@@ -122,6 +123,7 @@ use fuel_core_types::{
             DryRunResult,
             Result as ExecutorResult,
             TransactionExecutionResult,
+            UncommittedResult,
         },
     },
     tai64::Tai64,
@@ -141,11 +143,17 @@ use fuel_core_types::{
     },
     services::relayer::Event as RelayerEvent,
 };
+use fuel_core_executor::executor::OnceTransactionsSource;
 use std::{
     collections::BTreeMap,
     sync::{
         Arc,
+        Condvar,
         Mutex,
+        atomic::{
+            AtomicUsize,
+            Ordering,
+        },
     },
 };
 use vcommon::{
@@ -188,13 +196,54 @@ pub fn assumptions() -> Vec<&'static str> {
         "assemble_tx and coins_to_spend select coins with randomness: only absence of side effects is judged for them, not equality of answers",
         "a pool rejection is a violation only if it says an input is spent / does not exist for a transaction whose dry run with UTXO validation just succeeded",
         "leg a: the producer's gas-price and consensus-parameter ports are harness stubs; the relayer port is a harness object that reports a finalized DA height (moved by the harness between requests, within the heights present in the real relayer database) and the forced-transaction cost/count of each height; view provider, executor and databases are real",
+        "overlap: two identical Producer::dry_run calls (and a dry run with Producer::produce_and_execute_block_transactions of the next block, result dropped) are joined on one runtime; a gate in the harness's executor port holds each call (<= 250 ms) until both are inside the executor; answers must equal the sequential answers (the unchanged dry_run takes no lock)",
         "relayer progress (a later finalized DA height, further DA heights synced into the relayer database) is not a change of the chain: C45's 'same answer when repeated on an unchanged chain' is required across it; the unchanged code never consults the relayer in dry_run (it simulates on the last block's DA height)",
     ]
 }
 
 // ------------------------------------------------------------------ leg a: ports
 
-struct DryRunExec(Arc<RealExecutor>);
+/// Rendezvous inside the executor port: when armed for `n` callers, each caller
+/// waits (bounded) until `n` callers are inside, so that the calls really overlap.
+#[derive(Default)]
+struct Gate {
+    expected: AtomicUsize,
+    arrived: Mutex<usize>,
+    cv: Condvar,
+}
+
+impl Gate {
+    fn arm(&self, n: usize) {
+        *self.arrived.lock().unwrap() = 0;
+        self.expected.store(n, Ordering::SeqCst);
+    }
+
+    /// disarm; returns how many callers were inside together
+    fn disarm(&self) -> usize {
+        self.expected.store(0, Ordering::SeqCst);
+        *self.arrived.lock().unwrap()
+    }
+
+    fn pass(&self) {
+        let n = self.expected.load(Ordering::SeqCst);
+        if n < 2 {
+            return;
+        }
+        let mut a = self.arrived.lock().unwrap();
+        *a += 1;
+        self.cv.notify_all();
+        let deadline = std::time::Instant::now() + std::time::Duration::from_millis(250);
+        while *a < n {
+            let left = deadline.saturating_duration_since(std::time::Instant::now());
+            if left.is_zero() {
+                break;
+            }
+            a = self.cv.wait_timeout(a, left).unwrap().0;
+        }
+    }
+}
+
+struct DryRunExec(Arc<RealExecutor>, Arc<Gate>);
 
 impl DryRunner for DryRunExec {
     fn dry_run(
@@ -204,7 +253,24 @@ impl DryRunner for DryRunExec {
         at_height: Option<BlockHeight>,
         record_storage_read_replay: bool,
     ) -> ExecutorResult<DryRunResult> {
+        self.1.pass();
         self.0.dry_run(block, forbid_fake_coins, at_height, record_storage_read_replay)
+    }
+}
+
+/// Same shape as fuel-core's `ExecutorAdapter` implementation for a transaction vector.
+impl BlockProducerPort<Vec<Transaction>> for DryRunExec {
+    type Deadline = ();
+
+    async fn produce_without_commit(&self, component: Components<Vec<Transaction>>, _: ()) -> ExecutorResult<UncommittedResult<Changes>> {
+        self.1.pass();
+        let component = Components {
+            header_to_produce: component.header_to_produce,
+            transactions_source: OnceTransactionsSource::new(component.transactions_source),
+            gas_price: component.gas_price,
+            coinbase_recipient: component.coinbase_recipient,
+        };
+        self.0.produce_without_commit_with_source_direct_resolve(component)
     }
 }
 
@@ -509,12 +575,13 @@ fn run_session(ctx: &Ctx, args: &Args, case: &Case, rng: &mut StdRng, blocks: u3
     };
     report.count(if history { "c45.a.sessions.rocksdb_history" } else { "c45.a.sessions.in_memory" });
     let moving_relayer = MovingRelayer::default();
+    let gate = Arc::new(Gate::default());
     let provider_price = *pick(rng, &[0u64, 1, 2]);
     let producer: RealProducer = Producer {
         config: Default::default(),
         view_provider: sess.on_chain.clone(),
         txpool: (),
-        executor: Arc::new(DryRunExec(exec.clone())),
+        executor: Arc::new(DryRunExec(exec.clone(), gate.clone())),
         relayer: Box::new(moving_relayer.clone()),
         lock: Default::default(),
         gas_price_provider: StaticPrice(provider_price),
@@ -546,6 +613,8 @@ fn run_session(ctx: &Ctx, args: &Args, case: &Case, rng: &mut StdRng, blocks: u3
         let mut reqs = gen_requests(rng, &plan, latest, history);
         // bound the work per block
         reqs.truncate(26);
+        let mut overlap_pairs_left = 6u32;
+        let mut last_executed: Option<(Req, String)> = None;
 
         for req in &reqs {
             let txs: Vec<Transaction> = req.idx.iter().map(|i| plan.txs[*i].tx.clone()).collect();
@@ -698,6 +767,138 @@ fn run_session(ctx: &Ctx, args: &Args, case: &Case, rng: &mut StdRng, blocks: u3
             }
             if report.wants_sample() && class != "success" && chance(rng, 2) {
                 report.sample(json!({"leg": "a", "request": req.json(&plan), "answer": d1}));
+            }
+
+            // ---- the same request twice, CONCURRENTLY: both calls are held inside the executor port
+            // until both are there; each answer must equal the sequential one
+            if class != "error" {
+                last_executed = Some((req.clone(), d1.clone()));
+                if overlap_pairs_left > 0 && chance(rng, 40) {
+                    overlap_pairs_left -= 1;
+                    gate.arm(2);
+                    let both = catch(|| {
+                        rt.block_on(async {
+                            let a = producer.dry_run(txs.clone(), req.height.map(BlockHeight::from), req.time.map(Tai64), req.utxo, req.gas_price, req.record);
+                            let b = producer.dry_run(txs.clone(), req.height.map(BlockHeight::from), req.time.map(Tai64), req.utxo, req.gas_price, req.record);
+                            tokio::join!(a, b)
+                        })
+                    });
+                    let together = gate.disarm();
+                    match both {
+                        Ok((x, y)) => {
+                            report.eval();
+                            report.count(if together >= 2 { "c45.a.overlap.dry_run_pairs_inside_executor_together" } else { "c45.a.overlap.dry_run_pairs_not_together" });
+                            report.count(&format!("c45.a.overlap.dry_run_pairs.{}", req.height_kind));
+                            let (dx, _, _) = answer_of(&x);
+                            let (mut dy, _, _) = answer_of(&y);
+                            if ctx.st(7) {
+                                dy.push('x');
+                            }
+                            if dx != d1 || dy != d1 {
+                                ctx.violation(
+                                    "a: overlapping_dry_runs_differ_from_sequential_answer",
+                                    format!(
+                                        "Producer::dry_run({}) answered `{d1}` alone; two such calls overlapping in time ({together} of 2 were inside the executor together) answered `{dx}` and `{dy}`",
+                                        req.json(&plan)
+                                    ),
+                                    replay(),
+                                );
+                            }
+                            let after = dump_session(&sess);
+                            if let Some((cols, lines)) = diff_dumps(&before, &after) {
+                                ctx.violation(
+                                    &format!("a: dry_run_changed_state columns={cols}"),
+                                    format!("two overlapping Producer::dry_run({}): database before != after: {lines}", req.json(&plan)),
+                                    replay(),
+                                );
+                                break 'blocks;
+                            }
+                        }
+                        Err(p) => report.inconclusive(format!("panic inside overlapping Producer::dry_run: {p}")),
+                    }
+                }
+            }
+        }
+
+        // ---- a real production of the next block (through the real Producer, not committed) that
+        // overlaps an in-flight dry run: same outcome as the production alone, same dry-run answer
+        if let Some((req, d_seq)) = last_executed.take() {
+            let txs: Vec<Transaction> = req.idx.iter().map(|i| plan.txs[*i].tx.clone()).collect();
+            let block_txs: Vec<Transaction> = plan.txs.iter().map(|p| p.tx.clone()).collect();
+            let time = Tai64(4_611_686_018_427_387_914 + 1_700_000_000 + plan.height as u64 * 7);
+            let height = BlockHeight::from(plan.height);
+            moving_relayer.set_finalized(if chance(rng, 70) { sess.da_height } else { rng.gen_range(sess.da_height..=sess.relayer_tip) });
+            let prod_digest = |r: &anyhow::Result<UncommittedResult<Changes>>| match r {
+                Ok(u) => {
+                    let res = u.result();
+                    let statuses: Vec<String> = res.tx_status.iter().map(|s| format!("{s:?}")).collect();
+                    format!("ok block {} skipped {} digest {:016x}", res.block.id(), res.skipped_transactions.len(), hash64(&(statuses, format!("{:?}", res.events))))
+                }
+                Err(e) => format!("err {e:#}"),
+            };
+            let alone = catch(|| rt.block_on(producer.produce_and_execute_block_transactions(height, time, block_txs.clone())));
+            for dry_run_first in [true, false] {
+                gate.arm(2);
+                let both = catch(|| {
+                    rt.block_on(async {
+                        let d = producer.dry_run(txs.clone(), req.height.map(BlockHeight::from), req.time.map(Tai64), req.utxo, req.gas_price, req.record);
+                        let p = producer.produce_and_execute_block_transactions(height, time, block_txs.clone());
+                        if dry_run_first {
+                            tokio::join!(d, p)
+                        } else {
+                            let (p, d) = tokio::join!(p, d);
+                            (d, p)
+                        }
+                    })
+                });
+                let together = gate.disarm();
+                let (Ok(alone), Ok((d, p))) = (&alone, &both) else {
+                    report.inconclusive("panic inside Producer during overlapping production / dry run");
+                    break;
+                };
+                report.eval();
+                let order = if dry_run_first { "dry_run_started_first" } else { "production_started_first" };
+                report.count(&format!("c45.a.overlap.production_with_dry_run.{order}"));
+                if together >= 2 {
+                    report.count("c45.a.overlap.production_with_dry_run_inside_executor_together");
+                }
+                let (p_alone, p_over) = (prod_digest(alone), prod_digest(p));
+                report.count(if p.is_ok() { "c45.a.overlap.production_ok" } else { "c45.a.overlap.production_err" });
+                let (mut d_over, _, _) = answer_of(d);
+                if ctx.st(7) {
+                    d_over.push('x');
+                }
+                let replay = || case.replay(plan.height, json!({"requests": ops_log, "failing": {"overlap": order, "dry_run": req.json(&plan)}}));
+                if p_alone != p_over {
+                    ctx.violation(
+                        "a: production_overlapping_dry_run_differs_from_production_alone",
+                        format!(
+                            "producing block {} through Producer::produce_and_execute_block_transactions alone: `{p_alone}`; while Producer::dry_run({}) was in flight ({order}, {together} of 2 inside the executor together): `{p_over}`",
+                            plan.height,
+                            req.json(&plan)
+                        ),
+                        replay(),
+                    );
+                }
+                if d_over != d_seq {
+                    ctx.violation(
+                        "a: dry_run_overlapping_production_differs_from_sequential_answer",
+                        format!(
+                            "Producer::dry_run({}) answered `{d_seq}` alone and `{d_over}` while the next block was being produced ({order}, {together} of 2 inside the executor together)",
+                            req.json(&plan)
+                        ),
+                        replay(),
+                    );
+                }
+                let after = dump_session(&sess);
+                if let Some((cols, lines)) = diff_dumps(&before, &after) {
+                    ctx.violation(
+                        &format!("a: dry_run_changed_state columns={cols}"),
+                        format!("dry run overlapping an (uncommitted) production: database before != after: {lines}"),
+                        replay(),
+                    );
+                    break 'blocks;
+                }
             }
         }
 
@@ -1251,6 +1452,9 @@ pub fn run(args: &Args, report: &Report) -> (&'static str, bool, Vec<&'static st
             ("c45.a.repeat.relayer_advanced.latest", 1000),
             ("c45.a.repeat.relayer_advanced.past", 300),
             ("c45.a.repeat.relayer_unchanged.next", 250),
+            ("c45.a.overlap.dry_run_pairs_inside_executor_together", 1000),
+            ("c45.a.overlap.production_with_dry_run_inside_executor_together", 400),
+            ("c45.a.overlap.production_ok", 500),
             ("c45.a.utxo_validation.off", 1000),
             ("c45.a.utxo_validation.on", 1000),
             ("c45.a.record_storage_reads.nonempty", 700),
